@@ -15,6 +15,7 @@ import (
 	"encoding/binary"
 	"math/bits"
 	"sort"
+	"sync"
 )
 
 type Hash = [32]byte
@@ -62,6 +63,7 @@ type RefTree struct {
 	Dense   uint64            // leaves below this index are pairwise distinct
 	Special map[uint64]string // per-branch leaf overrides
 	sorted  []uint64          // sorted keys of Special
+	mmu     sync.Mutex        // memo is shared when stub servers of one run answer concurrently
 	memo    map[[2]uint64]Hash
 }
 
@@ -140,14 +142,19 @@ func (t *RefTree) mth(lo, hi uint64) Hash {
 	}
 	key := [2]uint64{lo, hi}
 	if pow2 {
-		if h, ok := t.memo[key]; ok {
+		t.mmu.Lock()
+		h, ok := t.memo[key]
+		t.mmu.Unlock()
+		if ok {
 			return h
 		}
 	}
 	k := largestPow2Below(n)
 	h := hashChildren(t.mth(lo, lo+k), t.mth(lo+k, hi))
 	if pow2 {
+		t.mmu.Lock()
 		t.memo[key] = h
+		t.mmu.Unlock()
 	}
 	return h
 }
